@@ -175,3 +175,22 @@ Env1W == [p |-> U("a"), a |-> A("view"), r |-> G("g"), c |-> CtxB[2], store |-> 
 Env2W == [p |-> U("a"), a |-> A("edit"), r |-> U("b"), c |-> CtxB[3], store |-> S2W]
 =============================================================================''')
 open(sys.argv[1] if len(sys.argv) > 1 else "/verif/spec/Universe.tla", "w").write("\n".join(out) + "\n")
+
+# ---- JsonKeys.tla: the key / keyword strings of the JSON formats as code-point tuples (TLC cannot look inside strings)
+KEYS = {"Value": "Value", "Var": "Var", "Not": "!", "Neg": "neg", "IsEmpty": "isEmpty", "Eq": "==", "Ne": "!=", "In": "in", "Lt": "<",
+        "Le": "<=", "Gt": ">", "Ge": ">=", "And": "&&", "Or": "||", "Add": "+", "Sub": "-", "Mul": "*", "Contains": "contains",
+        "ContainsAll": "containsAll", "ContainsAny": "containsAny", "GetTag": "getTag", "HasTag": "hasTag", "Access": ".", "Has": "has",
+        "Is": "is", "Like": "like", "If": "if-then-else", "Set": "Set", "Record": "Record", "left": "left", "right": "right", "arg": "arg",
+        "attr": "attr", "pattern": "pattern", "entity_type": "entity_type", "in": "in", "if": "if", "then": "then", "else": "else",
+        "Wildcard": "Wildcard", "Literal": "Literal", "effect": "effect", "permit": "permit", "forbid": "forbid", "principal": "principal",
+        "action": "action", "resource": "resource", "context": "context", "conditions": "conditions", "annotations": "annotations",
+        "kind": "kind", "body": "body", "when": "when", "unless": "unless", "op": "op", "All": "All", "entity": "entity",
+        "entities": "entities", "type": "type", "id": "id", "Entity": "__entity", "Extn": "__extn", "fn": "fn", "ip": "ip",
+        "decimal": "decimal", "datetime": "datetime", "duration": "duration", "uid": "uid", "attrs": "attrs", "parents": "parents",
+        "tags": "tags", "staticPolicies": "staticPolicies", "slot": "slot"}
+jk = ["------------------------------ MODULE JsonKeys ------------------------------",
+      "(* GENERATED by tools/genuniverse.py -- key and keyword strings of the JSON formats as code points. *)"]
+for name, text in KEYS.items():
+    jk.append("K_%s == %s" % (name, cps(text)))
+jk.append("=============================================================================")
+open(sys.argv[2] if len(sys.argv) > 2 else "/verif/spec/JsonKeys.tla", "w").write("\n".join(jk) + "\n")
